@@ -2,12 +2,12 @@ module pqh
 
 go 1.20
 
-require github.com/parsyl/parquet v0.0.0
-
 require (
-	github.com/apache/thrift v0.18.1 // indirect
-	github.com/golang/snappy v0.0.2 // indirect
-	github.com/valyala/bytebufferpool v1.0.0 // indirect
+	github.com/golang/snappy v0.0.2
+	github.com/parsyl/parquet v0.0.0
+	github.com/valyala/bytebufferpool v1.0.0
 )
+
+require github.com/apache/thrift v0.18.1 // indirect
 
 replace github.com/parsyl/parquet => /repo
